@@ -167,7 +167,7 @@ func init() {
 			modPath + "/js.toNullishExpr", modPath + "/js.minifyString", modPath + "/js.(*jsMinifier).optimizeCondExpr",
 			modPath + "/js.(*jsMinifier).minifyStmt", modPath + "/js.(*jsMinifier).minifyExpr",
 			modPath + "/js.(*renamer).renameScope", modPath + "/json.(*Minifier).Minify", modPath + "/html.(*Minifier).Minify",
-			modPath + "/cmd/minify.run", modPath + "/js.(*jsMinifier).minifyProperty",
+			modPath + "/cmd/minify.run", modPath + "/js.(*jsMinifier).minifyProperty", modPath + "/xml.(*Minifier).Minify",
 		},
 		Notes: []string{
 			"version gates as call-site preconditions / site assertions on the real js code: p_es(v) is DEFINED as (*Minifier).minVersion(v) of the running call; the rewrites that INTRODUCE newer syntax - ?? and ?. (toNullishExpr, ES2020), back-tick quoting (minifyString, ES2015), binding-less catch (ES2019), ** from Math.pow (ES2016) - carry `requires/assert p_es(v)` and every call site / program point must establish it from the branch conditions dominating it. Found and fixed F6 (Math.pow => ** had no version guard)",
@@ -180,7 +180,7 @@ func init() {
 	registerProp(&PropSpec{
 		ID:     "C19",
 		Custom: []string{"partial"},
-		Partial: []string{modPath + "/cmd/minify.minify", modPath + "/cmd/minify.run", modPath + "/cmd/minify.createTasks$fn1"},
+		Partial: []string{modPath + "/cmd/minify.minify", modPath + "/cmd/minify.run", modPath + "/cmd/minify.createTasks$fn1", modPath + "/cmd/minify.createTasks"},
 		Units:  []string{modPath + ".(*M).MinifyMimetype", modPath + ".(*M).Minify", modPath + "/cmd/minify.compilePattern", modPath + "/cmd/minify.openOutputFile"},
 		Notes: []string{
 			"openOutputFile under full contract: the destination is opened write-only, created and TRUNCATED (flags of the single os.OpenFile event), stdout for the empty name; run() (partial; channel operations end the verified path): whether an input has a trailing separator is decided on the name as given, not on the cleaned name",
@@ -260,7 +260,7 @@ func init() {
 		Units: []string{
 			modPath + "/xml.(*TokenBuffer).read", modPath + "/xml.NewTokenBuffer", modPath + "/xml.(*TokenBuffer).Peek", modPath + "/xml.(*TokenBuffer).Shift",
 		},
-		Custom:  []string{"partial"},
+		Custom:  []string{"partial", "tables"},
 		Partial: []string{modPath + "/xml.(*Minifier).Minify"},
 		Notes: []string{
 			"xml.TokenBuffer under full contract as a data structure with an abstract view (the not-yet-shifted tokens in lexer order): Peek(i) consumes nothing (every buffered token is preserved, in place or across reallocation), performs exactly one read() per newly buffered token, returns the i-th token of the view or the final error token, never indexes out of range; Shift hands out the first token of the view; all loops with invariants and variants",
